@@ -1118,6 +1118,14 @@ class OptionReader(Runner):
                 return l * r
         if isinstance(e, ast.Call) and isinstance(e.func, ast.Name) and e.func.id == "int" and len(e.args) == 1 and not e.keywords:
             return self.intval(e.args[0])
+        if not any(isinstance(x, ast.Name) and (x.id == self.P or x.id.startswith("‹")) for x in ast.walk(e)):
+            # an expression over module-level constants only (`_LIMITS[0]`, `MAX.bit_length() // 8`)
+            try:
+                v = consteval_ext(e, getattr(self.consts, "all", None) or self.consts)
+            except (norm.NormError, TypeError, ValueError):
+                v = None
+            if isinstance(v, int) and not isinstance(v, bool):
+                return Poly.const(v)
         raise norm.NormError("not an integer over the option bytes: %s" % txt(e))
 
     def is_intlike(self, e):
@@ -1130,6 +1138,24 @@ class OptionReader(Runner):
     def decide(self, cond):
         while isinstance(cond, ast.Call) and isinstance(cond.func, ast.Name) and cond.func.id == "bool" and len(cond.args) == 1 and not cond.keywords:
             cond = cond.args[0]
+        if isinstance(cond, ast.Compare) and len(cond.ops) == 1 and isinstance(cond.ops[0], (ast.In, ast.NotIn)) and self.is_intlike(cond.left):
+            # membership of an option integer in a literal collection of integers / a range: the disjunction of the equalities
+            # (resp. the conjunction of the two bounds), each decided like any comparison
+            coll = cond.comparators[0]
+            hit = None
+            if isinstance(coll, (ast.Tuple, ast.List, ast.Set)) and all(self.is_intlike(x) for x in coll.elts):
+                hit = False
+                for x in coll.elts:
+                    if self.decide(ast.Compare(left=cond.left, ops=[ast.Eq()], comparators=[x])):
+                        hit = True
+                        break
+            elif isinstance(coll, ast.Call) and isinstance(coll.func, ast.Name) and coll.func.id == "range" and not coll.keywords and 1 <= len(coll.args) <= 2 \
+                    and all(self.is_intlike(x) for x in coll.args):
+                lo = coll.args[0] if len(coll.args) == 2 else ast.Constant(value=0)
+                hit = bool(self.decide(ast.Compare(left=cond.left, ops=[ast.GtE()], comparators=[lo]))) \
+                    and bool(self.decide(ast.Compare(left=cond.left, ops=[ast.Lt()], comparators=[coll.args[-1]])))
+            if hit is not None:
+                return hit == isinstance(cond.ops[0], ast.In)
         nf = self.cond_nf(cond)
         if nf is None:
             if any(isinstance(x, ast.Name) and x.id == self.P for x in ast.walk(cond)):
@@ -1149,6 +1175,13 @@ class OptionReader(Runner):
             return True
         if neg in facts or entails_lt0(facts, neg[1]):
             return False
+        # a comparison of one byte / masked byte with a constant that its range decides (`B & 7 > 7` is false, `B < 256` true)
+        rng = self._range_of(nf[1])
+        if rng is not None:
+            if rng[1] < 0:
+                return True
+            if rng[0] >= 0:
+                return False
         # canonical key: the textually smaller of the fact and its negation
         a, b = repr(nf), repr(neg)
         key, pol = (a, True) if a <= b else (b, False)
@@ -1157,6 +1190,28 @@ class OptionReader(Runner):
         if nf == nf_lt(-self.LEN) or neg == nf_lt(-self.LEN):
             self.state["empty"] = (nf == nf_lt(-self.LEN)) != v
         return v
+
+    @staticmethod
+    def _range_of(p):
+        """(min, max) of c1 * atom + c0 for a byte atom `B[i]` (0..255) or a masked byte `B[i]&m` (0..m), else None"""
+        ats = p.atoms()
+        if len(ats) != 1:
+            return None
+        a = next(iter(ats))
+        if not a.startswith("B["):
+            return None
+        coef = p.t.get(((a, 1),))
+        if coef is None or set(p.t) - {((a, 1),), ()}:
+            return None
+        top = 255
+        if "]&" in a:
+            try:
+                top = int(a.rsplit("&", 1)[1])
+            except ValueError:
+                return None
+        c0 = p.t.get((), 0)
+        ends = (c0, coef * top + c0)
+        return (min(ends), max(ends))
 
     def cond_nf(self, e):
         """('lt', p) (p < 0) for a condition over option integers, a bool when constant, None when not about the option."""
@@ -1208,6 +1263,98 @@ class OptionReader(Runner):
     def _const_or(nf):
         c = nf[1].const_value()
         return (c < 0) if c is not None else nf
+
+
+# ---------------------------------------------------------------------------
+# module-level integer constants
+
+def consteval_ext(e, env=None):
+    """norm.consteval, plus the spellings module-level integer constants are also derived with: `N.bit_length()`,
+    `N.bit_count()`, max / min / abs / divmod / pow / int over constants, a constant index into a constant tuple.  Raises
+    norm.NormError like consteval."""
+    import copy
+    env = env or {}
+
+    def ints(vals):
+        return all(isinstance(v, int) and not isinstance(v, bool) for v in vals)
+
+    class T(ast.NodeTransformer):
+        def visit_Call(self, n):
+            self.generic_visit(n)
+            try:
+                if isinstance(n.func, ast.Attribute) and n.func.attr in ("bit_length", "bit_count") and not n.args and not n.keywords:
+                    v = norm.consteval(n.func.value, env)
+                    if ints([v]):
+                        return ast.copy_location(ast.Constant(value=getattr(v, n.func.attr)()), n)
+                if isinstance(n.func, ast.Name) and n.func.id in ("max", "min", "abs", "divmod", "pow", "int") and n.func.id not in env and n.args and not n.keywords:
+                    vals = [norm.consteval(a, env) for a in n.args]
+                    if len(vals) == 1 and isinstance(vals[0], (tuple, list)) and n.func.id in ("max", "min"):
+                        vals = list(vals[0])
+                    if ints(vals) and not (n.func.id == "pow" and (len(vals) != 2 or not 0 <= vals[1] < 200)):
+                        r = {"max": max, "min": min, "abs": abs, "divmod": divmod, "pow": pow, "int": int}[n.func.id](*vals)
+                        return ast.copy_location(ast.Constant(value=r), n)
+            except (norm.NormError, TypeError, ValueError, ZeroDivisionError):
+                pass
+            return n
+
+        def visit_Subscript(self, n):
+            self.generic_visit(n)
+            try:
+                if not isinstance(n.slice, ast.Slice):
+                    seq, i = norm.consteval(n.value, env), norm.consteval(n.slice, env)
+                    if isinstance(seq, (tuple, list)) and ints([i]) and -len(seq) <= i < len(seq) and ints([seq[i]]):
+                        return ast.copy_location(ast.Constant(value=seq[i]), n)
+            except norm.NormError:
+                pass
+            return n
+
+    return norm.consteval(T().visit(copy.deepcopy(e)), env)
+
+
+# ---------------------------------------------------------------------------
+# the reader and the writer of the OSCORE option run on ONE concrete value (C11.j)
+
+class ConcreteOptionReader(OptionReader):
+    """_uncompress-like code executed on one concrete option value: the same interpretation as OptionReader (windows of the
+    option, byte reads, masks, lengths), but every integer over the option is a number, so every condition over the option
+    is decided by its value and exactly one path is run.  A read outside the option is the IndexError Python raises."""
+
+    def __init__(self, fi, prog, consts, P, data):
+        super().__init__(fi, prog, consts, P)
+        self.data = bytes(data)
+        self.LEN = Poly.const(len(self.data))
+
+    def new_state(self):
+        st = super().new_state()
+        st["empty"] = len(self.data) == 0
+        return st
+
+    def intval(self, e):
+        if isinstance(e, ast.Subscript) and not isinstance(e.slice, ast.Slice):
+            w = self.window(e.value)
+            if w is not None:
+                pos = (w[0] + self.intval(e.slice)).const_value()
+                hi = w[1].const_value() if w[1] is not None else len(self.data)
+                if pos is None or hi is None or not 0 <= pos < min(hi, len(self.data)):
+                    raise AnalysisError("C11.j: a byte outside the concrete option is used as a value: %s" % txt(e)[:80])
+                return Poly.const(self.data[int(pos)])
+        return super().intval(e)
+
+    def _decide_nf(self, nf):
+        if isinstance(nf, bool):
+            return nf
+        raise AnalysisError("C11.j: a condition over a concrete option did not evaluate to a constant: %r" % (nf,))
+
+    def bytes_of(self, e):
+        """the concrete bytes an evaluated expression denotes when it is a window of the option, else None"""
+        w = self.window(e)
+        if w is None:
+            return None
+        lo = w[0].const_value()
+        hi = w[1].const_value() if w[1] is not None else len(self.data)
+        if lo is None or hi is None:
+            return None
+        return self.data[int(lo):int(hi)]
 
 
 # ---------------------------------------------------------------------------
@@ -1466,6 +1613,56 @@ class OptionWriter(MapModel):
         return None
 
 
+class ConcreteOptionWriter(OptionWriter):
+    """_compress-like code executed on one concrete map of fields {COSE key name: bytes}: presence is what the map says, a
+    present field is its byte string (so lengths are numbers and every limit test is decided by its value); the first
+    parameter (the protected header map, always {} in protect()) is the empty map."""
+
+    def __init__(self, fi, prog, consts, U, keyname, fields, empty_params=()):
+        super().__init__(fi, prog, consts, U, keyname)
+        self.fields = dict(fields)
+        self.empty_params = tuple(empty_params)
+
+    def initial_env(self):
+        return {n: ast.Dict(keys=[], values=[]) for n in self.empty_params}
+
+    def new_state(self):
+        st = super().new_state()
+        st["other"] = False
+        return st
+
+    def has(self, k):
+        s = self.state
+        if k not in s["cur"]:
+            s["had"][k] = s["cur"][k] = k in self.fields
+        return s["cur"][k]
+
+    def field(self, k):
+        s = self.state["syms"]
+        if k not in s:
+            s[k] = ast.Constant(value=self.fields[k])
+        return s[k]
+
+    def concrete_bytes(self, e):
+        """the byte string an evaluated bytes expression denotes, None when a part is not a constant"""
+        parts = byte_parts(e)
+        if parts is None:
+            return None
+        out = b""
+        for kind, x in parts:
+            if kind == "lit":
+                out += x
+            elif kind == "byte":
+                fv = self.flagval(x)
+                c = fv[0].const_value() if fv is not None else None
+                if c is None or c != int(c) or not 0 <= (int(c) | fv[1]) < 256:
+                    return None
+                out += bytes([int(c) | fv[1]])
+            else:
+                return None
+        return out
+
+
 def byte_parts(e):
     """Decompose an evaluated bytes expression into parts: ('byte', expr) for bytes([x]) / bytes((x,)) / x.to_bytes(1, ..),
     ('field', name) for F_<K>, ('lit', b'..'); b'' vanishes; `+`, b''.join([...]) and bytes([a, b]) are concatenations.
@@ -1498,6 +1695,132 @@ def byte_parts(e):
             out += p
         return out
     return None
+
+
+# ---------------------------------------------------------------------------
+# values answered from state (C11.k): keyed reads of containers that outlive the activation
+
+STORE_READS = ("get", "pop", "setdefault", "__getitem__")
+
+
+class StateRunner(Runner):
+    """The path runner for functions that may answer from a store that outlives the activation (`C[k]`, C an attribute chain
+    rooted in self / cls or a module-level name).  Such a read can miss: where a KeyError would be caught inside the function
+    (`try: return C[k]` / `except KeyError:`) the read is a decision of the path -- hit: the value is the read itself; miss:
+    KeyError, routed to the handler -- so both the answering and the computing path are enumerated, like they are for the
+    `k in C` / `C.get(k)` spellings."""
+
+    def _is_state(self, e):
+        c = state_chain(e)
+        if c is None:
+            return False
+        if c.startswith("type("):
+            return True
+        root = c.split(".")[0]
+        a = self.fi.node.args
+        pnames = [x.arg for x in a.posonlyargs + a.args + a.kwonlyargs]
+        if pnames and root == pnames[0] and "." in c and self.fi.cls is not None:
+            return True
+        return root not in pnames and root not in self.env and "." not in c and not root.startswith("‹")
+
+    def decide(self, cond):
+        # nothing is in a container that was created empty on this very path
+        if isinstance(cond, ast.Compare) and len(cond.ops) == 1 and isinstance(cond.ops[0], (ast.In, ast.NotIn)) and isinstance(cond.comparators[0], ast.Dict) \
+                and not cond.comparators[0].keys:
+            return isinstance(cond.ops[0], ast.NotIn)
+        return None
+
+    def eval_hook(self, e):
+        if isinstance(e, ast.Subscript) and not isinstance(e.slice, ast.Slice) and self._is_state(e.value):
+            tgt = self._exc_target(self.nid, "KeyError")
+            if tgt != self.cfg.rexit and self.cfg.nodes[tgt].kind == "handler":
+                if not self.choose("hit:" + txt(e)[:120]):
+                    raise PyRaise("KeyError")
+        return None
+
+
+def state_chain(e):
+    """chain(e), also for an attribute chain on the class of an object: `type(x).a.b` -> 'type(x).a.b', `x.__class__.a` -> 'type(x).a'"""
+    c = chain(e)
+    if c is not None:
+        parts = c.split(".")
+        if len(parts) >= 3 and parts[1] == "__class__":
+            return "type(%s).%s" % (parts[0], ".".join(parts[2:]))
+        return c
+    parts = []
+    while isinstance(e, ast.Attribute):
+        parts.append(e.attr)
+        e = e.value
+    if parts and isinstance(e, ast.Call) and isinstance(e.func, ast.Name) and e.func.id == "type" and len(e.args) == 1 and not e.keywords and isinstance(e.args[0], ast.Name):
+        return "type(%s).%s" % (e.args[0].id, ".".join(reversed(parts)))
+    return None
+
+
+def store_read(v):
+    """(container, key, call-or-subscript) when the evaluated value is read out of a keyed container (`C[k]`, `C.get(k[, d])`,
+    `C.pop(k[, d])`, `C.setdefault(k, d)`), possibly behind constant indexing / attribute reads of the entry; else None."""
+    while True:
+        if isinstance(v, ast.Subscript) and not isinstance(v.slice, ast.Slice):
+            if state_chain(v.value) is not None and not (isinstance(v.slice, ast.Constant) and isinstance(v.slice.value, int)):
+                return v.value, v.slice, v
+            v = v.value  # a constant index: a component of the entry
+        elif isinstance(v, ast.Attribute):
+            v = v.value
+        elif isinstance(v, ast.Call) and isinstance(v.func, ast.Attribute) and v.func.attr in STORE_READS and v.args and state_chain(v.func.value) is not None:
+            return v.func.value, v.args[0], v
+        else:
+            return None
+
+
+def input_atoms(e, selfname, params):
+    """The inputs an evaluated expression is computed from, as far as they are named: parameters of the function and
+    first-level attributes of self (`self.x...`, hasattr / getattr(self, 'x')); 'self' itself when the object is used whole
+    (as an argument, `id(self)`).  Calls through self (`self.m(..)`) are returned separately: [(method name, call)]."""
+    atoms, calls = set(), []
+
+    def visit(n, is_func=False):
+        if isinstance(n, ast.Call):
+            if _is_log(n):
+                return
+            f = n.func
+            if isinstance(f, ast.Attribute) and isinstance(f.value, ast.Name) and f.value.id == selfname:
+                calls.append((f.attr, n))
+            elif isinstance(f, ast.Name) and f.id in ("hasattr", "getattr") and len(n.args) >= 2 and isinstance(n.args[0], ast.Name) and n.args[0].id == selfname \
+                    and isinstance(n.args[1], ast.Constant) and isinstance(n.args[1].value, str):
+                atoms.add("%s.%s" % (selfname, n.args[1].value))
+                for a in n.args[2:]:
+                    visit(a)
+                return
+            elif isinstance(f, ast.Name) and f.id == "isinstance":
+                return
+            else:
+                visit(f, True)
+            for a in list(n.args) + [k.value for k in n.keywords]:
+                visit(a)
+            return
+        if isinstance(n, ast.Attribute):
+            c = chain(n)
+            if c is not None:
+                parts = c.split(".")
+                if parts[0] == selfname:
+                    atoms.add("%s.%s" % (selfname, parts[1]))
+                elif parts[0] in params:
+                    atoms.add(parts[0])
+                return
+            visit(n.value)
+            return
+        if isinstance(n, ast.Name):
+            if n.id == selfname:
+                atoms.add(selfname)
+            elif n.id in params:
+                atoms.add(n.id)
+            return
+        for c in ast.iter_child_nodes(n):
+            if isinstance(c, (ast.expr, ast.comprehension, ast.keyword)):
+                visit(c)
+
+    visit(e)
+    return atoms, calls
 
 
 # ---------------------------------------------------------------------------
